@@ -28,6 +28,11 @@ PC = AU * 648000.0 / PI  # IAU 2015 exact definition
 # canonical pint name -> (scale, dims, tol)
 TABLE = {
     "dimensionless": (1.0, _d(), EXACT),
+    # scaled pure numbers and angles: no dimension, but a scale that conversions and comparisons must honour
+    "percent": (0.01, _d(), 1e-15),
+    "ppm": (1.0e-6, _d(), 1e-15),
+    "radian": (1.0, _d(), EXACT),
+    "degree": (PI / 180.0, _d(), 1e-15),
     # length
     "centimeter": (1.0, _d(cm=1), EXACT),
     "millimeter": (0.1, _d(cm=1), 1e-15),
